@@ -18,7 +18,7 @@ THEOREMS = [
     "in_bounds", "alignment_free", "only_storeBytes_panics", "storeBytes_wrong_length_panics",
     "storeBytes_leaf_no_access", "storeBytes_exact", "covers_exactly", "covers_exactly_count",
     "inventory_accounted", "no_aligned_forms", "accounted_classified", "load_offsets_match",
-    "result_ignores_address",
+    "result_ignores_address", "source_footprint_match",
 ]
 
 ALIGNS_QUICK = [0, 1, 15, 16, 31, 63]
